@@ -120,4 +120,22 @@ def run (p : Proc) : List Op → Proc × List (Option Used)
     let rs := run r.1 ops
     (rs.1, r.2 :: rs.2)
 
+/-! ## `liquid.Template(...)`: the implicit environment -/
+
+/-- the arguments `Template` forwards to `get_implicit_environment` (loader and globals are always `None`) -/
+structure ImplicitCfg where
+  extra : Bool
+  delims : Delims
+  tolerance : Nat
+  undefined : Nat
+  strictFilters : Bool
+  autoescape : Bool
+  templateComments : Bool
+  deriving Repr, DecidableEq
+
+/-- `get_implicit_environment` is `lru_cache(maxsize=10)` over all its keyword arguments (compared by value);
+the environment it builds is determined by them: `f = id` on configurations -/
+def implicitCalls (ks : List ImplicitCfg) : List ImplicitCfg :=
+  (runCalls (fun a b => a == b) (fun k => k) (empty 10) ks).2
+
 end LiquidVerif.Memo
